@@ -430,7 +430,15 @@ Definition from_cache (pin_ustale : bool) (w : world) (s loc : str) (utd : optio
   let '(ps1, ok1) := try_cache pin_ustale w loc s needed ps_empty in
   if ok1 then (w, ps1) else
   let '(ps2, ok2) := try_cache pin_ustale w upsdb s needed ps1 in
-  if ok2 then (w, load_user_tags (w_db w) (w_uc w) utd s ps2) else
+  if ok2 then
+    (* loaded from the shared files of ups_db: the stack is persisted into its own directory (repaired:
+       proposed_fixes/C07-fromcache-persists-after-fallback; before the repair nothing was written, the
+       instance had no file of its own whose time it knew, and neither ensureInSync nor save could tell
+       that another instance had rewritten it) *)
+    let ps2u := load_user_tags (w_db w) (w_uc w) utd s ps2 in
+    if str_eqb loc upsdb then (w, ps2u) else
+    let '(w', ps3, _) := save w s loc needed ps2u in (w', ps3)
+  else
   let lk := rebuild_lookup (w_db w) (w_uc w) utd s in
   let '(w', ps3, _) := save w s loc (uniq (akeys lk ++ needed)) (mkPS lk (ps_modtimes ps2)) in
   (w', ps3).
